@@ -567,6 +567,12 @@ class Ranges:
             kr = self._range_canon(ca[3], bb, None, True, 0)
             if kr[0] >= 1 and self.prove_le(ca[2], cb[2], bb, False, depth + 1):
                 return True
+        # a variable assigned in several branches (`let x = if c { n } else { 0 }`): every assigned value must satisfy the bound
+        if ca[0] == 'local':
+            defs = self.B.defs().get(ca[1], [])
+            if len(defs) >= 2 and all(d[0] == 's' and d[3]['rv']['k'] in ('use', 'cast') for d in defs):
+                if all(self.prove_le(canon(self.B, d[3]['rv']['op']), cb, bb, strict, depth + 1) for d in defs):
+                    return True
         # loop variable of `for i in a..b`: a <= i < b
         lv = self.loop_var_bounds(ca)
         if lv is not None:
